@@ -1,6 +1,210 @@
-/- C18 — model not written yet (stub so that the driver target exists). -/
-namespace Nitime.C18
+/-
+C18 — model of `nitime.analysis.spectral.FilterAnalyzer` and `nitime.algorithms.filter.boxcar_filter`
+(core Lean only).
 
-def handle (_args : List String) : String := "bad-op"
+* `filteredFourier`  : `filtered_fourier` — bins selected on a frequency grid, ± index nulling, DC
+  kept, real part of the inverse transform.  The bin grid is a parameter: `gridTrue` (the true
+  bin frequency `j·Fs/n` — the INTENDED behaviour the projection theorem is about) and
+  `gridCode` (`get_freqs` as the code has it today: `linspace(0, Fs/2, int(n/2+1))`, which is
+  the true grid for even `n` only — C05's defect).  The driver returns both variants.
+* `restoreDC`, `filtfiltWrapper` : the DC restoration around the external `scipy.signal.filtfilt`.
+* `firBandFractions`, `firPlan`, `iirPlan` : band edges as fractions of Nyquist, which designs are
+  requested (the designs themselves — `firwin`, `iirdesign` — are external).
+* `boxcarFilter` : padding, convolution, central excision, high-pass by subtraction + mean;
+  polymorphic in the scalar (runs at `Float` and `Rat`).
+* `methodAxis` : which of rate / t0 / unit each method forwards, read off the GENERATED
+  output-series descriptors (`Generated/SeriesCalls.lean`, harness/translate_c15.py).
+-/
+import Nitime.Model.FiltBase
+import Nitime.Model.Proto
+import Nitime.Model.C15Types
+import Nitime.Generated.SeriesCalls
+
+namespace Nitime.C18
+open Nitime Nitime.Filt
+
+/-! ### Fourier-domain filter -/
+
+/-- true frequency of bin `j ≤ n/2` -/
+def gridTrue (fs : Float) (n j : Nat) : Float := j.toFloat * fs / n.toFloat
+
+/-- `get_freqs(Fs, n)[j]` = `np.linspace(0, Fs/2, int(n/2+1))[j]` -/
+def gridCode (fs : Float) (n j : Nat) : Float :=
+  let m := n / 2 + 1
+  if m ≤ 1 then 0 else
+  if j + 1 = m then fs / 2 else j.toFloat * ((fs / 2) / (m - 1).toFloat)
+
+/-- is bin `k` (0 ≤ k < n) kept?  DC always; otherwise its grid frequency must not be `< lb` nor `> ub`.
+The code nulls `idx` and `-idx` for every `idx ≤ n/2` outside the band, i.e. bin `k` is judged by
+the grid entry `min(k, n-k)`. -/
+def keepBin (grid : Nat → Float) (lb ub : Float) (n k : Nat) : Bool :=
+  if k = 0 then true else
+  let j := if k ≤ n - k then k else n - k
+  !(grid j < lb) && !(grid j > ub)
+
+def filteredFourierWith (grid : Nat → Float) (lb : Float) (ub : Option Float) (n : Nat) (x : List Float) :
+    List Float :=
+  let ub := ub.getD (grid (n / 2))           -- `self.ub = freqs[-1]`
+  let X := dft (x.toArray.map fun v => ⟨v, 0⟩)
+  let Y := (Array.range n).map fun k => if keepBin grid lb ub n k then X.getD k Cx.zero else Cx.zero
+  (idft Y).toList.map (·.re)
+
+def filteredFourier (fs lb : Float) (ub : Option Float) (x : List Float) : List Float :=
+  filteredFourierWith (gridTrue fs x.length) lb ub x.length x
+
+def filteredFourierCurrent (fs lb : Float) (ub : Option Float) (x : List Float) : List Float :=
+  filteredFourierWith (gridCode fs x.length) lb ub x.length x
+
+/-! ### DC restoration around `filtfilt` -/
+section dc
+variable {K : Type} [Add K] [Sub K] [Div K] [OfNat K 0] [NatCast K]
+
+def sumL (l : List K) : K := l.foldl (fun acc v => acc + v) 0
+def mean (l : List K) : K := sumL l / (l.length : K)
+
+/-- `out = out - mean(out) + dc` -/
+def restoreDC (dc : K) (y : List K) : List K := y.map fun v => v - mean y + dc
+
+/-- the wrapper: `F` is the external zero-phase filter -/
+def filtfiltWrapper (F : List K → List K) (x : List K) : List K := restoreDC (mean x) (F x)
+end dc
+
+/-! ### FIR / IIR plans -/
+section plans
+variable {K : Type} [Div K] [OfNat K 0] [OfNat K 1] [OfNat K 2] [LT K] [DecidableLT K]
+
+/-- `(lb_frac, ub_frac)`: band edges as fractions of the Nyquist frequency `Fs/2` -/
+def firBandFractions (fs lb : K) (ub : Option K) : K × K :=
+  (lb / (fs / 2), match ub with | some u => u / (fs / 2) | none => 1)
+
+inductive PlanErr where | valueError
+  deriving DecidableEq, Repr
+
+/-- which designs `fir` requests: `(n_taps, low-pass cut-off?, high-pass cut-off?)` -/
+def firPlan (fs lb : K) (ub : Option K) (order n : Nat) : Except PlanErr (Nat × Option K × Option K) :=
+  let (lf, uf) := firBandFractions fs lb ub
+  if lf < 0 ∨ 1 < uf then .error .valueError
+  else if n * 3 < order + 1 then .error .valueError
+  else .ok (order + 1, if uf < 1 then some uf else none, if 0 < lf then some lf else none)
+end plans
+
+/-! ### boxcar -/
+section boxcar
+variable {K : Type} [Add K] [Sub K] [Mul K] [Div K] [OfNat K 0] [OfNat K 1] [NatCast K]
+
+/-- `np.convolve(a, [1/m]*m)` (full) -/
+def convBox (a : Array K) (m : Nat) : List K :=
+  let w : K := 1 / (m : K)
+  (List.range (a.size + m - 1)).map fun i =>
+    (List.range m).foldl (fun acc j => if j ≤ i ∧ i - j < a.size then acc + a.getD (i - j) 0 * w else acc) 0
+
+/-- pad with `m` copies of the end values, convolve, excise the central `n` points -/
+def boxLowpass (m : Nat) (x : List K) : List K :=
+  let n := x.length
+  let first := x.headD 0
+  let last := x.getLastD 0
+  let pad := (List.replicate m first ++ x ++ List.replicate m last).toArray
+  let conv := convBox pad m
+  let L := conv.length
+  (conv.drop (L / 2 - n / 2)).take n
+
+/-- `boxcar_filter` on one channel as the code has it TODAY: `mUb = ceil(1/(2·ub))`,
+`mLb = ceil(1/(2·lb))` when `lb ≠ 0`; the low-pass stage does not restore the mean -/
+def boxcarFilterCurrent (mUb : Nat) (mLb : Option Nat) (x : List K) : List K :=
+  let x1 := boxLowpass mUb x
+  match mLb with
+  | none => x1
+  | some m =>
+    let lp := boxLowpass m x1
+    let mu := mean lp
+    (x1.zip lp).map fun (a, b) => a - b + mu
+
+/-- INTENDED behaviour ("all filtering methods keep the original DC component"): the low-pass
+stage puts the original mean back (proposed_fixes/C18-boxcar-lowpass-mean.diff) -/
+def boxcarFilter (mUb : Nat) (mLb : Option Nat) (x : List K) : List K :=
+  let x1 := restoreDC (mean x) (boxLowpass mUb x)
+  match mLb with
+  | none => x1
+  | some m =>
+    let lp := boxLowpass m x1
+    let mu := mean lp
+    (x1.zip lp).map fun (a, b) => a - b + mu
+end boxcar
+
+def ceilHalfInv (f : Float) : Nat := (Float.ceil (1 / (2 * f))).toUInt64.toNat
+
+/-! ### output axis, from the generated descriptors -/
+open Nitime.C15 Nitime.Generated.SeriesCalls
+
+structure AxisD where
+  rate : Bool     -- sampling rate forwarded from the input
+  t0 : Bool
+  unit : Bool
+  deriving DecidableEq, Repr
+
+def shapeAxis (sh : Shape) : AxisD :=
+  { rate := sh.rate == .field .rate || sh.interval == .field .interval,
+    t0 := sh.t0 == .field .t0, unit := sh.unit == .field .unit }
+
+def AxisD.comp (a b : AxisD) : AxisD := ⟨a.rate && b.rate, a.t0 && b.t0, a.unit && b.unit⟩
+
+/-- descriptors each method goes through (fir: its own re-wrapping, then `filtfilt` on it) -/
+def methodAxis : String → Option AxisD
+  | "fir" => some ((shapeAxis FilterAnalyzer_fir_0.shape).comp (shapeAxis FilterAnalyzer_filtfilt_0.shape))
+  | "iir" => some (shapeAxis FilterAnalyzer_filtfilt_0.shape)
+  | "filtered_fourier" => some (shapeAxis FilterAnalyzer_filtered_fourier_0.shape)
+  | "filtered_boxcar" => some (shapeAxis FilterAnalyzer_filtered_boxcar_0.shape)
+  | _ => none
+
+-- ------------------------------------------------------------------ driver
+instance : NatCast Float := ⟨Nat.toFloat⟩
+
+open Proto in
+def optF (s : String) : Option (Option Float) :=
+  if s = "none" then some none else (parseFloat? s).map some
+
+def b2s (b : Bool) : String := if b then "1" else "0"
+
+open Proto in
+def handle (args : List String) : String :=
+  match args with
+  | ["fourier", fs, lb, ub, x] =>
+    match parseFloat? fs, parseFloat? lb, optF ub, parseFloatList? x with
+    | some fs, some lb, some ub, some x =>
+      "ok " ++ showFloatList (filteredFourier fs lb ub x) ++ " " ++ showFloatList (filteredFourierCurrent fs lb ub x)
+    | _, _, _, _ => "bad-args"
+  | ["restoredc", x, y] =>
+    match parseFloatList? x, parseFloatList? y with
+    | some x, some y => "ok " ++ showFloatList (restoreDC (mean x) y)
+    | _, _ => "bad-args"
+  | ["firplan", fs, lb, ub, order, n] =>
+    match parseFloat? fs, parseFloat? lb, optF ub, order.toNat?, n.toNat? with
+    | some fs, some lb, some ub, some order, some n =>
+      match firPlan fs lb ub order n with
+      | .error _ => "err ValueError"
+      | .ok (taps, lp, hp) =>
+        "ok " ++ toString taps ++ " " ++ (match lp with | some v => showFloat v | none => "-") ++ " "
+          ++ (match hp with | some v => showFloat v | none => "-")
+    | _, _, _, _, _ => "bad-args"
+  | ["boxcar", fs, lb, ub, x] =>
+    match parseFloat? fs, parseFloat? lb, optF ub, parseFloatList? x with
+    | some fs, some lb, some ub, some x =>
+      let u := match ub with | some u => u / fs | none => 1.0
+      let l := lb / fs
+      let ml := if l == 0 then none else some (ceilHalfInv l)
+      "ok " ++ showFloatList (boxcarFilter (ceilHalfInv u) ml x) ++ " "
+        ++ showFloatList (boxcarFilterCurrent (ceilHalfInv u) ml x)
+    | _, _, _, _ => "bad-args"
+  | ["boxcarq", mub, mlb, x] =>
+    match mub.toNat?, (if mlb = "none" then some none else mlb.toNat?.map some), (splitList x).mapM parseRat? with
+    | some mub, some mlb, some x =>
+      "ok " ++ joinList ((boxcarFilter mub mlb x).map showRat) ++ " "
+        ++ joinList ((boxcarFilterCurrent mub mlb x).map showRat)
+    | _, _, _ => "bad-args"
+  | ["axis", m] =>
+    match methodAxis m with
+    | some a => "ok " ++ b2s a.rate ++ " " ++ b2s a.t0 ++ " " ++ b2s a.unit
+    | none => "bad-args"
+  | _ => "bad-op"
 
 end Nitime.C18
